@@ -220,19 +220,22 @@ impl<'a> StateMachine<'a> {
                 );
             }
         }
-        if self.config.max_line_length > 0
-            && self.raw_line.len() > self.config.max_line_length
+        if self.config.max_line_length > 0 && self.raw_line.len() > self.config.max_line_length {
+            // The exemptions are about the text of the line, not about the escape sequences
+            // git may have put in front of it (a colored hunk header starts with "\x1b[36m@@").
+            let text = ansi::strip_ansi_codes(&self.raw_line);
             // Do not truncate long hunk headers
-            && !self.raw_line.starts_with("@@")
+            if !text.starts_with("@@")
             // Do not truncate ripgrep --json output
-            && !self.raw_line.starts_with('{')
-        {
-            self.raw_line = ansi::truncate_str(
-                &self.raw_line,
-                self.config.max_line_length,
-                &self.config.truncation_symbol,
-            )
-            .to_string()
+            && !text.starts_with('{')
+            {
+                self.raw_line = ansi::truncate_str(
+                    &self.raw_line,
+                    self.config.max_line_length,
+                    &self.config.truncation_symbol,
+                )
+                .to_string()
+            }
         };
         self.line = ansi::strip_ansi_codes(&self.raw_line);
     }
